@@ -767,6 +767,22 @@ def run(ctx) -> None:
                 payload = payloads[count % len(payloads)]
                 arun(mapping_case(ctx, prefixes, VERSIONS[count % 5], (*head, payload)))
         ctx.exhaustive["prefix-x-message-cases"] = count
+        # dictionary payloads / topic levels: text the transport modules themselves mention (vf.codedict), novel text first
+        from .. import codedict
+
+        try:
+            words = codedict.systematic_candidates(codedict.TRANSPORT_MODULES, ctx.pick(150, 800))
+        except Exception:  # noqa: BLE001
+            words = []
+        for i, word in enumerate(words):
+            if not ctx.mine(i):
+                continue
+            ctx.clause("dictionary-payload")
+            safe = word.replace("\n", " ")
+            arun(mapping_case(ctx, PREFIXES[i % 5], VERSIONS[i % 5], (1 + i % 200, i % 3, 1, i % 2, 47, safe)))
+            if "/" not in safe and "+" not in safe and "#" not in safe and safe.strip():
+                arun(mapping_case(ctx, (safe + "-in", safe + "-out"), VERSIONS[i % 5], (7, 0, 1, 0, 2, "v")))
+            client_script_case(ctx, [("msg", safe), "read", ("msg", "plain"), ("msg", safe + " 2.3.2"), "read", "read"])
         for i in range(ctx.pick(1500, 400000) // ctx.shard_count):
             prefixes = rng.choice(PREFIXES)
             arun(mapping_case(ctx, prefixes, rng.choice(VERSIONS), (*gens.random_wellformed(rng), gens.random_payload(rng))))
